@@ -244,6 +244,15 @@ def run(ctx):
             check(ctx, f'unsqueeze_{dim}', [t], lambda a, dim=dim: a.unsqueeze(dim), lambda a, dim=dim: a.unsqueeze(dim), True, reqs, meta)
             check(ctx, f'getitem_{dim}', [t], lambda a: a[0] if a.shape[0] else a, lambda a: a[0] if a.shape[0] else a, True, reqs, meta)
         check(ctx, 'unsqueeze_-1', [t], lambda a: a.unsqueeze(-1), lambda a: a.unsqueeze(-1), True, reqs, meta)
+        # negative dimension arguments (torch counts from the end) for every operation that takes a dimension
+        for dim in range(-nd, 0):
+            for keep in (False, True):
+                check(ctx, f'any_neg_{keep}', [tb], lambda a, dim=dim, keep=keep: a.any(dim, keepdim=keep),
+                      lambda a, dim=dim, keep=keep: a.any(dim, keepdim=keep), True, reqs, meta)
+            check(ctx, 'log_softmax_neg', [t], lambda a, dim=dim: a.log_softmax(dim), lambda a, dim=dim: a.log_softmax(dim), False, reqs, meta)
+            check(ctx, 'dim_to_dense_neg', [t], lambda a, dim=dim: a.dim_to_dense(dim), lambda a: a, True, reqs, meta)
+        for dim in range(-nd - 1, 0):
+            check(ctx, 'unsqueeze_neg', [t], lambda a, dim=dim: a.unsqueeze(dim), lambda a, dim=dim: a.unsqueeze(dim), True, reqs, meta)
         if nd >= 1 and all(s > 0 for s in t.shape):
             idx = tuple(ctx.rng.randrange(s) for s in t.shape[:ctx.rng.randint(1, nd)])
             check(ctx, 'getitem_tuple', [t], lambda a, idx=idx: a[idx], lambda a, idx=idx: a[idx], True, reqs, meta)
@@ -253,6 +262,10 @@ def run(ctx):
             check(ctx, 'permute', [t], lambda a, perm=perm: a.permute(perm), lambda a, perm=perm: a.permute(*perm), True, reqs, meta)
             i, j = ctx.rng.sample(range(nd), 2)
             check(ctx, 'transpose', [t], lambda a, i=i, j=j: a.transpose(i, j), lambda a, i=i, j=j: a.transpose(i, j), True, reqs, meta)
+            ni, nj = ctx.rng.choice([(i - nd, j), (i, j - nd), (i - nd, j - nd)])
+            check(ctx, 'transpose_neg', [t], lambda a, i=ni, j=nj: a.transpose(i, j), lambda a, i=ni, j=nj: a.transpose(i, j), True, reqs, meta)
+            nperm = [q - nd if ctx.rng.random() < 0.5 else q for q in perm]
+            check(ctx, 'permute_neg', [t], lambda a, perm=nperm: a.permute(perm), lambda a, perm=nperm: a.permute(*perm), True, reqs, meta)
         # expand: from fewer dimensions / size-1 dimensions
         ext_shape = [ctx.rng.choice([2, 3])] + list(t.shape)
         check(ctx, 'expand', [t], lambda a, s=ext_shape: a.expand(*s), lambda a, s=ext_shape: a.expand(*s), True, reqs, meta)
@@ -295,6 +308,9 @@ def run(ctx):
         check(ctx, 'stack', [t] + us, lambda *a: stack(list(a), 0), lambda *a: torch.stack(list(a), 0), True, reqs, meta)
         if nd >= 1:
             check(ctx, 'stack_1', [t] + us, lambda *a: stack(list(a), 1), lambda *a: torch.stack(list(a), 1), True, reqs, meta)
+        sd = ctx.rng.randrange(-nd - 1, 0)
+        check(ctx, 'stack_neg', [t] + us, lambda *a, sd=sd: stack(list(a), sd), lambda *a, sd=sd: torch.stack(list(a), sd), True, reqs, meta)
+        check(ctx, 'stack_single_neg', [t], lambda a, sd=sd: stack([a], sd), lambda a, sd=sd: torch.stack([a], sd), True, reqs, meta)
         # two-step compositions
         s1 = ctx.rng.choice([lambda a: a.T, lambda a: a.flatten() if a.ndim else a, lambda a: a.unsqueeze(0), lambda a: a.clone(),
                              lambda a: a.dim_to_dense(0) if a.ndim else a])
